@@ -12,6 +12,7 @@ import (
 	"sync/atomic"
 	"time"
 
+	"github.com/hashicorp/go-plugin/internal/verifhook"
 	"github.com/hashicorp/yamux"
 )
 
@@ -58,6 +59,7 @@ func (m *MuxBroker) Accept(id uint32) (net.Conn, error) {
 	select {
 	case c = <-p.ch:
 		close(p.doneCh)
+		verifhook.Point("mux.accept.took", id)
 	case <-time.After(5 * time.Second):
 		m.Lock()
 		defer m.Unlock()
@@ -104,6 +106,7 @@ func (m *MuxBroker) Dial(id uint32) (net.Conn, error) {
 	}
 
 	// Write the stream ID onto the wire.
+	verifhook.Point("mux.dial.opened", id)
 	if err := binary.Write(stream, binary.LittleEndian, id); err != nil {
 		stream.Close()
 		return nil, err
@@ -153,6 +156,7 @@ func (m *MuxBroker) Run() {
 		}
 
 		// Initialize the waiter
+		verifhook.Point("mux.run.stream", id)
 		p := m.getStream(id)
 		select {
 		case p.ch <- stream:
@@ -189,6 +193,7 @@ func (m *MuxBroker) timeoutWait(id uint32, p *muxBrokerPending) {
 	case <-time.After(5 * time.Second):
 		timeout = true
 	}
+	verifhook.Point("mux.timeout.wake", id)
 
 	m.Lock()
 	defer m.Unlock()
